@@ -232,6 +232,8 @@ def oracle_line(script, variant):
                 f = s.get("first") or dict(typ=T_REN, id=0, ver=version, pl=dict(k="conn", status=0))
                 n, tag, info = pl_len_tag_info(f.get("pl"))
                 toks.append("connect first %d %d %d %d %d %s" % (f.get("ver") or version, f["typ"], f.get("id", 0), n, tag, info))
+        elif op == "peer_send" and s.get("skip") is not None:
+            toks.append("prest")            # the rest of the frame the peer sent cut before (same frame spec, skip = that cut)
         elif op in ("peer_send", "keepalive"):
             typ = T_KA if op == "keepalive" else s["typ"]
             n, tag, info = pl_len_tag_info(s.get("pl"))
